@@ -115,7 +115,7 @@ CHECKS.update({
    text="Fsck.tla is a tiny design model of e2fsck passes 1-5 (TLC: one repair run over every state reachable by <= 2 (thorough 3) catalogue corruptions ends in a state the read-only run accepts; the "
         "design mutant 'pass 5 repairs the bitmap in memory only' is caught). Corrupt.tla is the closed universe (6 296 catalogue entries, 780 interacting pairs, closed triples) enumerated by TLC. "
         "Conformance: every universe element is concretised through the independent reader's location map on 15 base profiles, the real `e2fsck -fy -E problem_log` then `e2fsck -fn -E problem_log` run, "
-        "and TLC (Trace_Tools, C01_Holds: Success(exit1) => exit2 = 0 /\\ problems2 = <<>>) decides every line. Keys of known findings are layout-free (profile, recipe class, ordered problem codes with inode numbers); quick can only select elements the thorough tier runs completely.",
+        "and TLC (Trace_Tools, C01_Holds: Success(exit1) => exit2 = 0 /\\ problems2 = <<>>) decides every line. Keys of known findings are layout-free (profile, recipe class, ordered problem codes with inode numbers); quick can only select elements the thorough tier runs completely. The in-memory containers the passes rely on are specified as well (ContRefcount / ContIcount / ContDblist / ContBadblocks / ContRegion refining ContAbs: sorted arrays with lazy compaction and growth, TLC refinement on scaled capacities) and bound by line-by-line trace validation of seeded histories at the real constants' boundaries run through the real code under ASan (harness/contdrv.c).",
    note="Trusted: TLC, gen/corrupt.py (checksum fixers self-tested: recomputation on a pristine object is the identity), e2fsck's own problem log as the failure signature. 36 known findings keyed by the "
         "second run's problem signature (clusters: quota usage after an inode clear, invalid symlink + filetype, bitmap differences after extent-count repairs, resize-inode repeats, i_size flip-flop). "
         "Quick is a seeded subset (~1 700 elements), thorough the whole universe (48 094 lines). Fsck.tla is not bound to the code line by line.",
